@@ -80,6 +80,13 @@ def run(ctx):
                 jobs.append(dict(kind='ep', flavour=flavour, threads=3 + k % 2, cs=100, y=(300, 0), prewarm=boundary, tag='b%d' % n,
                                  cmd=[e, '--mode', 'episodes', '--threads', 3 + k % 2, '--cycles', 3, '--episodes', 8, '--ep-keep', 1, '--prewarm', boundary - 1 - (k * 3) % 7, '--cs', 4000,
                                       '--seed', ctx.seed * 100 + n, '--yield', 300, '--yield-us', 0]))
+        # staged exclusion across the counter boundaries: readers inside, then a writer asks; walks the reader counters
+        # across 2^23 (sign change) and 2^24 (wrap) R acquisitions at a time
+        for boundary in (8388608, 16777216):
+            for R in (1, 2, 3):
+                n += 1
+                jobs.append(dict(kind='staged', flavour=flavour, threads=R + 1, cs=0, y=(0, 0), prewarm=boundary, tag='g%d' % n,
+                                 cmd=[e, '--mode', 'staged', '--readers', R, '--rounds', 8, '--prewarm', boundary - 2 * R - 1, '--seed', ctx.seed * 100 + n]))
         for victim, nv, na, y in (('writer', 1, 6, 0), ('writer', 2, 10, 150), ('reader', 2, 6, 0), ('reader', 4, 8, 150), ('writer', 1, 15, 0)):
             n += 1
             jobs.append(dict(kind='starve', flavour=flavour, threads=nv + na, cs=300, y=(y, 0), prewarm=0, victim=victim, tag='s%d' % n,
@@ -124,6 +131,9 @@ def run(ctx):
             ctx.add_cov('read_acquisitions', s['racq']); ctx.add_cov('write_acquisitions', s['wacq'])
             for ep in r.of('episode')[:1]:
                 ctx.sample(dict(threads=s['threads'], flavour=j['flavour'], yield_cfg=ycfg, episode=ep['events'][:500]), cap=3)
+        elif j['kind'] == 'staged':
+            ctx.note_case(('staged', j['flavour'], j['prewarm'], s['readers']), True, n=s['rounds'])
+            ctx.add_cov('staged_rounds_across_counter_boundaries', s['rounds'])
         else:
             nontrivial = s['vict_acq'] > 0 and s['aggr_acq'] > 0
             ctx.note_case(('starve', j['flavour'], j['victim'], s['victims'], s['aggressors'], ycfg), nontrivial)
